@@ -6,7 +6,7 @@
    same sources as ordinary modules. *)
 From PV Require Import Common.Util Gen.CtxConsts Interp.Ctx.
 
-Inductive oval := OInt (z : Z) | ONone | ONames (l : list N) | OFun (c : path) (f : N) | OMod (c : path) | OOther.
+Inductive oval := OInt (z : Z) | ONone | ONames (l : list N) | OFun (c : path) (f : N) | OMod (c : path) | OOther | OStr (p : path).
 Definition otable := list (N * oval).
 Definition otables := list (path * otable).
 
@@ -14,7 +14,8 @@ Record ccase := {
   cc_fs : list (path * list stmt);
   cc_ops : list op;
   cc_obs : otables;                 (* pyscript: GlobalContextMgr.contexts[..].global_sym_table *)
-  cc_oracle : option otables        (* CPython, None when the case uses pyscript-only functions *)
+  cc_oracle : option otables;       (* CPython, None when the case uses pyscript.set_global_ctx *)
+  cc_locals : list N                (* names the generated programs only ever use as function locals *)
 }.
 
 Definition model_fuel : nat := 120.
@@ -26,6 +27,7 @@ Definition oval_eqb (a b : oval) : bool :=
   | ONames x, ONames y => list_eqb N.eqb x y
   | OFun c f, OFun c' f' => path_eqb c c' && N.eqb f f'
   | OMod c, OMod c' => path_eqb c c'
+  | OStr c, OStr c' => path_eqb c c'
   | _, _ => false
   end.
 
@@ -48,6 +50,7 @@ Definition oval_of (w : world) (v : val) : oval :=
   | VNames l => ONames l
   | VFun c f _ _ => OFun (name_of w c) f
   | VMod c => OMod (name_of w c)
+  | VStr p => OStr p
   end.
 (* the harness drops, on every side, the entry "x -> submodule x of this very package" from a package's table
    (CPython's import system sets that attribute on the parent package as a side effect of importing a submodule) *)
@@ -65,8 +68,12 @@ Definition ccase_model_ok (cfg : deviations) (c : ccase) : bool :=
   let '(w, ok) := run_case cfg c in ok && otables_eqb (model_tables w) (cc_obs c).
 
 (* Spec: every context's globals are exactly what CPython gives for the same files *)
+(* without an oracle (set_global_ctx, which has no CPython counterpart): the documented function redirects *global*
+   reads and writes only, so no name that is only ever a function local may show up in any context's global table *)
+Definition no_local_leak (c : ccase) : bool :=
+  forallb (fun '(_, t) => forallb (fun '(x, _) => negb (memN x (cc_locals c))) t) (cc_obs c).
 Definition ccase_spec_ok (c : ccase) : bool :=
-  match cc_oracle c with None => true | Some o => otables_eqb o (cc_obs c) end.
+  match cc_oracle c with None => no_local_leak c | Some o => otables_eqb o (cc_obs c) end.
 
 (* attribution: the conformant Model agrees with the oracle, and switching Dk off alone changes the Model's result *)
 Definition tables_of (cfg : deviations) (c : ccase) : otables := model_tables (fst (run_case cfg c)).
